@@ -87,6 +87,7 @@ func main() {
 				deepCheck(r, *repo, *verif, id)
 			}
 		}
+		props.SetWorld(w)
 		code := runOne(ck, &props.Ctx{W: w, R: r}, *verif, known, seed)
 		if code > exit {
 			exit = code
